@@ -24,6 +24,7 @@ import (
 type Ctx struct {
 	R     *check.Report
 	Tier  string
+	AsDep bool // the rules are being evaluated as a lower layer of another property's check
 	progs map[string]*load.Program
 }
 
@@ -375,12 +376,14 @@ func ModuleFuncs(prog *load.Program) []*ssa.Function {
 
 // Deps lists, per property, the properties of the layers directly below it (DESIGN.md section 0.2).
 var Deps = map[string][]string{
+	"C01": {"C20"},
+	"C02": {"C20"},
 	"C03": {"C01"},
 	"C04": {"C02", "C03", "C19"},
 	"C05": {"C03", "C19"},
 	"C06": {"C01", "C02", "C03"},
 	"C07": {"C02", "C05", "C06", "C11", "C12", "C16"},
-	"C08": {"C02", "C05", "C06", "C07", "C09", "C12"},
+	"C08": {"C02", "C05", "C06", "C07", "C09", "C10", "C12"},
 	"C09": {"C02"},
 	"C10": {"C02", "C04", "C05", "C06"},
 	"C11": {"C02", "C06", "C10", "C16"},
@@ -389,9 +392,13 @@ var Deps = map[string][]string{
 	"C14": {"C05", "C13"},
 	"C15": {"C01", "C03"},
 	"C16": {"C03", "C04", "C05"},
+	"C17": {"C20"},
 	"C18": {"C06", "C15"},
 	"C19": {"C01"},
 }
+
+// Every property is decided by sequential reasoning about one call at a time; that is only valid if no routine keeps
+// mutable state shared between calls (C20).  C20 is therefore at the bottom of every chain (through C01 / C02).
 
 // DepsClosure returns the transitive lower layers of a property, sorted.
 func DepsClosure(id string) []string {
